@@ -123,7 +123,9 @@ def sequence(rng, n):
     """commands over a small space of equal-length keys (no internal-key collisions), all five types"""
     keys = ["6b%02x" % i for i in range(rng.choice([4, 6, 8]))]
     fields = ["66%02x" % i for i in range(4)] + ["-"]
-    scores = ["1", "2.5", "-3", "0.001", "10"]
+    # (canonical shortest decimal forms: the reply of ZScore is strconv.FormatFloat(score, 'f', -1, 64)); pairs of DISTINCT
+    # scores that are closer than any sensible tolerance: an update to a nearly equal score is still an update
+    scores = ["1", "2.5", "-3", "0.001", "10", "0.3", "0.30000000000000004", "0.0000000001", "0.0000000002", "0", "0.000000000001"]
     ops = ["dt.reset"]
     for _ in range(n):
         k = rng.choice(keys)
@@ -156,7 +158,16 @@ def sequence(rng, n):
             ops.append("dt.%spop %s" % (rng.choice("lr"), k))
         elif r < 0.88:
             # zset members of one fixed length (no member/score key clash)
-            ops.append("dt.zadd %s %s %s" % (k, rng.choice(scores), rng.choice(["6d61", "6d62", "6d63"])))
+            m = rng.choice(["6d61", "6d62", "6d63"])
+            if rng.random() < 0.3:
+                # the same member twice in a row, the second time with the same or a barely different score, then read it
+                a, b = rng.choice([("0.3", "0.30000000000000004"), ("0.0000000001", "0.0000000002"), ("0", "0.000000000001"),
+                                   ("2.5", "2.5"), ("1", "1.0000000000000002")])
+                if rng.random() < 0.5:
+                    a, b = b, a
+                ops += ["dt.zadd %s %s %s" % (k, a, m), "dt.zadd %s %s %s" % (k, b, m), "dt.zscore %s %s" % (k, m)]
+            else:
+                ops.append("dt.zadd %s %s %s" % (k, rng.choice(scores), m))
         elif r < 0.94:
             ops.append("dt.zscore %s %s" % (k, rng.choice(["6d61", "6d62", "6d63"])))
         elif r < 0.97:
